@@ -1430,7 +1430,7 @@ Section Cleanup.
         rewrite L6'. now destruct (existsb _ _).
       - destruct L7 as (D1 & D2 & D3). unfold dirs_ok.
         rewrite !(has_dir_dirs s (wfs w') _ Dd). split; [exact D1|]. split; [exact D2|].
-        intros P h Lh. rewrite (parent_ok_dirs s (wfs w') _ Dd). now apply D3.
+        intros P h Lh Bh. rewrite (parent_ok_dirs s (wfs w') _ Dd). now apply D3.
       - destruct L8 as [V1 V2]. split; [exact V1|]. destruct (writer (mwal m)) as [[sgm buf]|]; [|exact I].
         destruct V2 as (B1 & B2 & B3 & B4). repeat split; try assumption.
         rewrite Other; [exact B2|discriminate|discriminate].
